@@ -22,6 +22,8 @@
 (*                record was handed to WriteLog                               *)
 (*   C08.log      a log write is not a sequence of complete records with      *)
 (*                increasing LSNs per transaction and a correct prevLSN chain *)
+(*   C08.died / C12.died  the engine process panicked during a concurrent      *)
+(*                workload against a slow log device (log buffer overflow)     *)
 (*   C20.*        the same observations on crash points inside recovery       *)
 EXTENDS CrashModel, TraceKit
 
@@ -120,6 +122,9 @@ TNext ==
                                                            THEN V("C08.wal", l, <<"page", e.p, "links to page", e.next, "whose NewTablePage record is not durable; durable up to", durMax>>) ELSE <<>>)
                                                      \o ProbeChecks(e, l))
        [] e.ev = "GC" -> Stut /\ viol' = AddViol(viol, ProbeChecks(e, l))
+       [] e.ev = "Died" -> \* the engine process ended with a panic in the middle of a concurrent workload (line added by the check)
+                           Stut /\ viol' = AddViol(viol, V("C08.died", l, e.msg) \o V("C12.died", l, e.msg))
+       [] e.ev = "IoFail" -> Stut /\ viol' = AddViol(viol, V("C12.died", l, <<e.res, e.sql>>))
   /\ (TraceLog[l].ev \in {"Reset", "WLog", "CommitDone", "WPage"} \/ UNCHANGED xvars)
   /\ l' = l + 1
 
